@@ -139,8 +139,13 @@ impl<S: Scheduler> Recording<S> {
 
 impl<S: Scheduler> Scheduler for Recording<S> {
     fn new_execution(&mut self) -> Option<Schedule> {
-        self.steps.lock().unwrap().clear();
-        self.inner.new_execution()
+        // The runner asks once more after the last execution (and gets None): the recorded
+        // steps of that last execution must survive the question.
+        let next = self.inner.new_execution();
+        if next.is_some() {
+            self.steps.lock().unwrap().clear();
+        }
+        next
     }
 
     fn next_task(&mut self, runnable: &[&Task], current: Option<TaskId>, is_yielding: bool) -> Option<TaskId> {
